@@ -70,6 +70,19 @@ CHECKS = {
                 "of printed values, pandas combine_counts and file concatenation order are outside the claim.",
         "design": "3 C02",
     },
+    "C09": {
+        "text": "Bounded symbolic verification of grouped counting: one inductive step from an arbitrary grouped counter state "
+                "(fresh symbolic real per feature x group, <=3 groups quick / 4 thorough, 2 features) with the group universe given to the "
+                "counter in EVERY iteration order (order chosen by the solver - models set order / hash seed); the real add_read_info and "
+                "dump_grouped run and both renderings are parsed back: z3 proves per-group sums = ungrouped value, only the read's own "
+                "column changes, and matrix and linear renderings carry identical (feature, group, value) triples for every order. "
+                "Group lookup: tag/table/file groupers with symbolic presence bits (symx); the read-id suffix grouper and the option "
+                "parser on symbolic strings with CrossHair (read id <=4 chars).",
+        "note": "Trusted: z3, symx proxies, sentinel parsing of printed tables, CrossHair for the string kernels (bug-hunting strength when it "
+                "reports 'not confirmed' within its budget - recorded as not discharged). split_read_group_table (pysam) and group discovery "
+                "across threads are outside the claim.",
+        "design": "3 C09",
+    },
 }
 
 NOT_BUILT = "check not built yet (build in progress, see DESIGN.md section 5); no claim is made"
